@@ -69,6 +69,49 @@ ENFORCED = {
               "UNEXPECTED_EOL_CHR", "UNKNOWN_ESCAPE"],
 }
 
+# Frozen on the pinned tree and confirmed against DESIGN.md §4.2: the slots in which each emitting check runs.
+# A check may gain slots; losing one means the violations it reports go unnoticed after that statement kind.
+# "_rule" = after every recognised statement (equivalent to depending on every runnable primary).
+SLOTS = {
+    "CheckAssignation": ["IsAssignation"],
+    "CheckAssignationIndent": ["IsAssignation", "IsFuncPrototype", "IsFunctionCall", "IsVarDeclaration"],
+    "CheckBlockStart": ["IsBlockStart"],
+    "CheckBrace": ["IsBlockEnd", "IsBlockStart"],
+    "CheckComment": ["_rule"],
+    "CheckCommentLineLen": ["IsComment"],
+    "CheckControlStatement": ["IsControlStatement"],
+    "CheckEmptyLine": ["_rule"],
+    "CheckExpressionStatement": ["IsAssignation", "IsCast", "IsControlStatement", "IsExpressionStatement", "IsFunctionCall"],
+    "CheckFuncArgumentsName": ["IsFuncDeclaration", "IsFuncPrototype"],
+    "CheckFuncDeclaration": ["IsFuncDeclaration", "IsFuncPrototype", "IsUserDefinedType"],
+    "CheckFuncSpacing": ["IsFuncDeclaration"],
+    "CheckFunctionsCount": ["IsFuncDeclaration"],
+    "CheckGeneralSpacing": ["IsAssignation", "IsControlStatement", "IsDeclaration", "IsExpressionStatement", "IsFunctionCall"],
+    "CheckGlobalNaming": ["IsVarDeclaration"],
+    "CheckHeader": ["_rule"],
+    "CheckIdentifierName": ["_rule"],
+    "CheckLabel": ["_rule"],
+    "CheckLineCount": ["_rule"],
+    "CheckLineIndent": ["_rule"],
+    "CheckLineLen": ["_rule"],
+    "CheckManyInstructions": ["IsAssignation", "IsBlockEnd", "IsControlStatement", "IsExpressionStatement",
+                              "IsFuncDeclaration", "IsFuncPrototype", "IsFunctionCall", "IsUserDefinedType", "IsVarDeclaration"],
+    "CheckNestLineIndent": ["IsControlStatement", "IsDeclaration", "IsExpressionStatement"],
+    "CheckNewlineIndent": ["IsAssignation", "IsCast", "IsDeclaration", "IsExpressionStatement"],
+    "CheckOperatorsSpacing": ["IsAssignation", "IsControlStatement", "IsDeclaration", "IsExpressionStatement",
+                              "IsFuncDeclaration", "IsFuncPrototype", "IsFunctionCall", "IsVarDeclaration"],
+    "CheckPreprocessorDefine": ["IsPreprocessorStatement"],
+    "CheckPreprocessorInclude": ["IsPreprocessorStatement"],
+    "CheckPreprocessorIndent": ["IsPreprocessorStatement"],
+    "CheckPreprocessorProtection": ["IsPreprocessorStatement"],
+    "CheckPrototypeIndent": ["IsFuncPrototype"],
+    "CheckSpacing": ["_rule"],
+    "CheckTernary": ["_rule"],
+    "CheckUtypeDeclaration": ["IsUserDefinedType"],
+    "CheckVariableDeclaration": ["IsVarDeclaration"],
+    "CheckVariableIndent": ["IsVarDeclaration"],
+}
+
 
 def unit_of(fn) -> str:
     f = fn
@@ -132,6 +175,25 @@ def check(run, prog):
         if rel.startswith("rules/") and (rel.startswith("rules/check_") or rel.startswith("rules/is_")):
             has = any(prog.is_sub(c.name, "Rule") for c in mod.classes.values())
             run.ob("R-2.1", f"{rel}::module", has, "rule module defines no Rule subclass", mod.tree)
+
+    # ---- R-2.4 slot coverage ---------------------------------------------------
+    run.rule("R-2.4", "REG: every emitting check still runs in each slot of the frozen slot table (statement kinds after "
+             "which it is triggered); `_rule` counts as every runnable primary", floor=30)
+    runnable = {c.name for c in rm.primaries if rm.primary_can_run(c.name)}
+    for cname, want in sorted(SLOTS.items()):
+        if cname not in prog.classes:
+            run.ob("R-2.4", f"rules::{cname}::slots", False, f"check class {cname} no longer exists", None)
+            continue
+        live = set(rm.live_slots(cname))
+        if "_rule" in live:
+            live |= runnable
+        need = set(want)
+        if "_rule" in need and "_rule" not in live:
+            need = (need - {"_rule"}) | runnable
+        lost = sorted(need - live)
+        run.ob("R-2.4", f"{prog.classes[cname].key}::slots-kept", not lost,
+               f"{cname} no longer runs after {lost}: the violations it reports are missed in those statements",
+               prog.classes[cname].node, frozen=want, live=sorted(rm.live_slots(cname)))
 
     # ---- R-2.2 emitter exhaustiveness ---------------------------------------
     run.rule("R-2.2", "EMIT: for every (emitter unit, enforced code) of the frozen table there is >= 1 emission site "
